@@ -120,6 +120,11 @@ func (c *ColLowCardinalityRaw) DecodeColumn(r *Reader, rows int) error {
 	if err := checkRows(int(keyRows)); err != nil {
 		return errors.Wrap(err, "index size")
 	}
+	if int(keyRows) != rows {
+		// One key per row; otherwise the column would report a row count
+		// that differs from the block.
+		return errors.Errorf("keys size %d does not match rows %d", keyRows, rows)
+	}
 	if err := c.Keys().DecodeColumn(r, int(keyRows)); err != nil {
 		return errors.Wrap(err, "keys column")
 	}
